@@ -8,6 +8,17 @@ I9 = (1, 0, 0, 0, 1, 0, 0, 0, 1)
 TS = 48   # translations are handled as integers / 48
 
 
+def approx_op(op, tol=1e-4):
+    """Like exact_op but snapping the translation to the nearest 1/48 within tol (for decimal text input)."""
+    R = numpy.asarray(op.R, dtype=float)
+    t = numpy.asarray(op.t, dtype=float)
+    Ri = numpy.rint(R)
+    ti = numpy.rint(t * TS)
+    if not numpy.allclose(R, Ri, atol=1e-9) or not numpy.allclose(t * TS, ti, atol=tol * TS):
+        return None
+    return tuple(int(v) for v in Ri.flatten()), tuple(int(v) % TS for v in ti)
+
+
 def exact_op(op):
     """(R as 9 ints, t as 3 ints = 48*t) of a live SymOp, or None when not exactly representable."""
     R = numpy.asarray(op.R, dtype=float)
